@@ -112,8 +112,11 @@ CONFIG = {
         "structure Reader); C05_reprint_fixed takes 'the reader finds the elements where the printer put them' (relaidFile) as "
         "an explicit hypothesis; C05_reparse proves it (parse (print d) = reading, relaid, print reading = print d) for the "
         "grammar MODEL and the shape SimpleFile (package, imports, messages, nested messages, enums, real oneofs, fields incl. "
-        "map fields, enum values, services with methods; elements without source location); for files with options, custom "
-        "json_name, comments, source locations or extend blocks the reading is validated by print.file only. Which generated "
+        "map fields, enum values, services with methods; elements with or without source lines, no comments; fields with "
+        "bracket options and custom json_name — for these the scanner / option parser facts are evaluated per field by the "
+        "checker (OptField) and carried to the printed position by the shift / frame lemmas of ReparseOpts.lean); for files "
+        "with statement options (option … = …; in a body), comments or extend blocks the reading is validated by print.file "
+        "only. Which generated "
         "files are inside the shape is decided per print.file op by Cover.simpleFileB (proved sound: simpleFileB_sound) and "
         "reported under coverage.reparse_theorem_* (fraction, per origin, reasons for being outside)",
         "float option values (strconv.FormatFloat) and enum value names are opaque texts produced by Go (oracle)",
